@@ -124,7 +124,7 @@ def gen(rng, tier, index):
         # the estimator object has a past: an earlier cold fit on other data of the same shape,
         # possibly with a (relative) threshold that is switched off again afterwards
         decoy = {
-            "X": rng.normal(size=X.shape) * unit * float(10.0 ** rng.uniform(-1, 1)),
+            "X": forms.sibling_or(X, rng.normal(size=X.shape), unit * float(10.0 ** rng.uniform(-1, 1))),
             "y": None if y is None else rng.normal(size=len(X)),
             "n": int(rng.integers(lo, N + 1)),
             "thr": gens.pick(rng, (None, ("relative", 0.5), ("relative", 0.05), ("absolute", 1e-3 * unit**2))),
